@@ -381,7 +381,10 @@ impl<'a> Socket<'a> {
                     requested_ip: dhcp_repr.your_ip, // use the offered ip
                 });
             }
-            (ClientState::Requesting(state), DhcpMessageType::Ack) => {
+            // Only an ACK that answers a REQUEST we have actually sent can configure us.
+            // (The offer that brought us here and a premature ACK can be processed in
+            // the same ingress pass, before dispatch had a chance to send the REQUEST.)
+            (ClientState::Requesting(state), DhcpMessageType::Ack) if state.retry > 0 => {
                 if let Some((config, renew_at, rebind_at, expires_at)) =
                     Self::parse_ack(cx.now(), &dhcp_repr, self.max_lease_duration, state.server)
                 {
